@@ -303,8 +303,8 @@ def cases(ctx: Ctx, search: bool = False):
             if cfg["game"].get("seed") in (None, -1):
                 cfg["game"]["seed"] = rng.range(2, 10 ** 6)  # the property speaks of a CONFIGURED seed
             stochastic = name in ("data_manipulation",) or ctx.thorough
-            k = ctx.scale(6, 20) if stochastic else ctx.scale(4, 12)
-            yield name, "shipped-map", cfg, gen_ops(rng.fork(name), _n_actions(cfg), k, cfg["game"]["seed"], ctx.scale(0, 2))
+            k = ctx.scale(6, 14) if stochastic else ctx.scale(4, 10)
+            yield name, "shipped-map", cfg, gen_ops(rng.fork(name), _n_actions(cfg), k, cfg["game"]["seed"], ctx.scale(0, 1))
             if ctx.thorough or name == "data_manipulation":
                 try:
                     aug = envrig.augmented(cfg, rng.fork(name + "-aug"), ctx.scale(40, 120))
@@ -313,8 +313,7 @@ def cases(ctx: Ctx, search: bool = False):
                     aug = None
                 if aug is not None:
                     aug = _small_scan(aug)
-                    yield name, "generated-map", aug, gen_ops(rng.fork(name + "-augops"), _n_actions(aug), ctx.scale(8, 30), aug["game"]["seed"],
-                                                              ctx.scale(0, 1))
+                    yield name, "generated-map", aug, gen_ops(rng.fork(name + "-augops"), _n_actions(aug), ctx.scale(8, 18), aug["game"]["seed"], 0)
     # the same scenarios with every optional process-wide section left out (played after a history that set them)
     if not search:
         for name in (["data_manipulation"] if not ctx.thorough else ["data_manipulation", "uc7_config", "action_penalty", "shared_rewards",
@@ -342,7 +341,7 @@ def cases(ctx: Ctx, search: bool = False):
             r = rng.fork(f"{name}-tap{i}")
             cfg = tap_variant(base, r)
             cfg["game"]["seed"] = r.range(2, 10 ** 6)
-            yield name, f"stochastic-tap-{i}", cfg, gen_ops(r, _n_actions(cfg), ctx.scale(12, 30), cfg["game"]["seed"], ctx.scale(0, 1))
+            yield name, f"stochastic-tap-{i}", cfg, gen_ops(r, _n_actions(cfg), ctx.scale(12, 24), cfg["game"]["seed"], ctx.scale(0, 1))
     for i in range(ctx.scale(1, 6) if not search else 2):
         r = rng.fork(f"generated-{i}")
         try:
@@ -352,7 +351,7 @@ def cases(ctx: Ctx, search: bool = False):
             ctx.notes.append(f"generated scenario {i} not built: {type(e).__name__}: {str(e)[:160]}")
             continue
         cfg["game"]["seed"] = r.range(2, 10 ** 6)
-        yield "generated", f"random-agent+nmap+db+web-{i}", cfg, gen_ops(r, _n_actions(cfg), ctx.scale(8, 24), cfg["game"]["seed"], ctx.scale(0, 1))
+        yield "generated", f"random-agent+nmap+db+web-{i}", cfg, gen_ops(r, _n_actions(cfg), ctx.scale(8, 16), cfg["game"]["seed"], ctx.scale(0, 1))
 
 
 def variants(ctx: Ctx, rng: Rng, cfg: Optional[Dict] = None, n_extra: int = 0) -> Tuple[List[Dict], Dict]:
@@ -426,7 +425,7 @@ def reseed_oracle(name: str, variant: str, cfg: Dict, ops: List[Any], base_v: Di
             viol.append({"sig": sig, "what": f"{name}/{variant}: episode {j} was started with reset(seed={sd}) and played the same actions as episode {i} "
                                             f"(started with the same seed{' by construction' if i == 0 else ''}), but line {d} of the episode differs: {desc}; "
                                             f"{_excerpt(a[d], b[d])}",
-                         "replay": {"scenario": name, "variant": variant, "cfg": cfg, "ops": ops, "variants": [base_v], "reseed": True,
+                         "replay": {"scenario": name, "variant": variant, "cfg_yaml": _yaml(cfg), "ops": ops, "variants": [base_v], "reseed": True,
                                     "episodes": [i, j], "seed": sd, "a": a[d][:3000], "b": b[d][:3000]}})
             break
     # non-vacuity: episodes started with DIFFERENT seeds (same actions) that can be told apart
@@ -454,7 +453,7 @@ def check_case(name: str, variant: str, cfg: Dict, ops: List[Any], vs: List[Dict
         cnt["raised"] += 1
     if not base:
         viol.append({"sig": {"kind": "worker-produced-nothing"}, "what": f"{name}/{variant}: worker printed nothing: {base_err[-300:]}",
-                     "replay": {"scenario": name, "variant": variant, "cfg": cfg, "ops": ops, "variants": vs}})
+                     "replay": {"scenario": name, "variant": variant, "cfg_yaml": _yaml(cfg), "ops": ops, "variants": vs}})
         return viol, cnt, base
     for v, lines, err in res[1:]:
         d = xproc.first_diff(base, lines)
@@ -468,7 +467,7 @@ def check_case(name: str, variant: str, cfg: Dict, ops: List[Any], vs: List[Dict
             sig["history"] = "differs"   # the two interpreters also differ in what they ran BEFORE the case
         viol.append({"sig": sig, "what": f"{name}/{variant}: line {d} differs between {_vshort(base_v)} and {_vshort(v)}: {desc}; "
                                         f"{_excerpt(a, b)}",
-                     "replay": {"scenario": name, "variant": variant, "cfg": cfg, "ops": ops, "variants": [base_v, v], "warm": warm, "first_diff": d,
+                     "replay": {"scenario": name, "variant": variant, "cfg_yaml": _yaml(cfg), "ops": ops, "variants": [base_v, v], "warm": warm, "first_diff": d,
                                 "a": a[:4000], "b": b[:4000], "stderr": err[-500:]}})
         break
     cnt["workers-with-history"] = sum(1 for v, _, _ in res if v.get("warm"))
@@ -476,6 +475,12 @@ def check_case(name: str, variant: str, cfg: Dict, ops: List[Any], vs: List[Dict
     viol += rv
     cnt.update(rc)
     return viol, cnt, base
+
+
+def _yaml(cfg: Dict) -> str:
+    """Replay records carry the scenario as YAML text: JSON would turn integer keys (router ports, action maps) into strings."""
+    import yaml
+    return yaml.safe_dump(cfg, sort_keys=False)
 
 
 def _vshort(v: Dict) -> str:
@@ -509,7 +514,7 @@ def f9_try(bandwidth: float, pin_a: Dict, pin_b: Dict) -> Optional[dict]:
     d = xproc.first_diff(a, b)
     if d is None or not a or not b:
         return None
-    return {"cfg": cfg, "ops": [1, 1], "variants": [{"hashseed": 1, "pin": pin_a}, {"hashseed": 1, "pin": pin_b}], "first_diff": d,
+    return {"cfg_yaml": _yaml(cfg), "ops": [1, 1], "variants": [{"hashseed": 1, "pin": pin_a}, {"hashseed": 1, "pin": pin_b}], "first_diff": d,
             "a": a[d][:3000] if d < len(a) else None, "b": b[d][:3000] if d < len(b) else None, "bandwidth": bandwidth}
 
 
@@ -719,7 +724,7 @@ def probe_rig(ctx: Ctx):
                 pass
             ctx.violation({"kind": "site-probe-differs-across-processes", "probe": key},
                           f"stand-alone evaluation of inventory site `{key}` differs between {res[0][0]} and {v}: {_excerpt(a, b)}",
-                          {"cfg": cfg, "ops": [0], "probe": probe, "variants": [res[0][0], v], "first_diff": d})
+                          {"cfg_yaml": _yaml(cfg), "ops": [0], "probe": probe, "variants": [res[0][0], v], "first_diff": d})
             break
     if ok:
         pr = json.loads(base[-1])["probe"]
@@ -744,15 +749,21 @@ def replay(rec: dict) -> bool:
         from primaite.utils.validation.port import PORT_LOOKUP
         model = run_driver(EXE, [rp["line"]])
         return model and model[0] == _site_impl(rp["site_case"], None, PORT_LOOKUP)
-    spec = {"cfg": rp["cfg"], "ops": rp["ops"], "warm": rp.get("warm") or []}
+    import yaml
+    spec = {"ops": rp["ops"], "warm": rp.get("warm") or []}
+    if "cfg_yaml" in rp:
+        spec["cfg_yaml"] = rp["cfg_yaml"]
+        cfg = yaml.safe_load(rp["cfg_yaml"])
+    else:
+        spec["cfg"] = cfg = rp["cfg"]
     if "probe" in rp:
         spec["probe"] = rp["probe"]
     res = xproc.run_workers(spec, rp["variants"], REPO, VERIF)
     base = res[0][1]
-    if not base:
-        return False
+    if not base or base[0].startswith('{"raised"'):
+        return False  # the replay could not be played at all: not a pass
     if rp.get("reseed"):
-        viol, _ = reseed_oracle(rp.get("scenario", "?"), rp.get("variant", "?"), rp["cfg"], rp["ops"], rp["variants"][0], base)
+        viol, _ = reseed_oracle(rp.get("scenario", "?"), rp.get("variant", "?"), cfg, rp["ops"], rp["variants"][0], base)
         return not viol
     return all(xproc.first_diff(base, lines) is None for _, lines, _ in res[1:])
 
